@@ -145,6 +145,26 @@ def examine(case):
         r3 = call(athlib.check_performance_for_discipline, event, text, gender=gender, prec=prec)
         if r2[:2] != r[:2]:
             out.append(V('defaults-spelled-out', ['defaults', 'explicit-differs'], case, r2[:3], r[:3]))
+        # the record margin option `ulpc` (default 1.2): spelled out it is the same call; a stricter margin never accepts
+        # what the default refuses nor changes the text, a laxer one never refuses what the default accepts, and whatever a
+        # margin u lets through for a field event lies within u x the record
+        kwu = {'errorKlass': PrivateError}
+        if gender != 'all':
+            kwu['gender'] = gender
+        if prec is not None:
+            kwu['prec'] = prec
+        ru = {u: call(athlib.check_performance_for_discipline, event, text, ulpc=u, **kwu) for u in (1.0, 1.2, 1.5)}
+        if ru[1.2][:2] != r[:2]:
+            out.append(V('defaults-spelled-out', ['defaults', 'explicit-ulpc-differs'], case, ru[1.2][:3], r[:3]))
+        if ru[1.0][0] == 'ret' and ru[1.0][:2] != r[:2]:
+            out.append(V('defaults-spelled-out', ['ulpc', 'stricter-margin-accepts-or-differs'], case, ru[1.0][:3], r[:3]))
+        if r[0] == 'ret' and ru[1.5][:2] != r[:2]:
+            out.append(V('defaults-spelled-out', ['ulpc', 'laxer-margin-refuses-or-differs'], case, ru[1.5][:3], r[:3]))
+        if fam == 'field':
+            rec = record_for(event, gender)
+            for u, x in ru.items():
+                if rec and x[0] == 'ret' and isinstance(x[1], str) and re.match(r'^\d+\.\d\d$', x[1]) and float(x[1]) > rec * u + 1e-9:
+                    out.append(V('field-plausible', ['field', 'beyond-record', 'ulpc-%s' % u], case, [x[1], rec]))
         if (r3[0] == 'ret') != (r[0] == 'ret') or (r3[0] == 'ret' and r3[1] != r[1]) or \
                 (r3[0] == 'exc' and r[1] == 'PrivateError' and r3[1] != 'ValueError'):
             out.append(V('only-the-given-error', ['defaults', 'default-error-class'], case, r3[:3], r[:3]))
